@@ -44,7 +44,8 @@ def apply_spec(d, m):
 
 
 def apply_patch(d, patch):
-    subprocess.run(['patch', '-p1', '-s', '--no-backup-if-mismatch', '-i', patch], cwd=d, check=True)
+    # only the package matters to the checks (a seeded change may also touch docs/)
+    subprocess.run(['git', 'apply', '--include=bronzebeard/*', '--include=tests/*', patch], cwd=d, check=True)
 
 
 def run_one(m, tier, do_pytest, workers):
